@@ -700,3 +700,35 @@ impl<'a> Display for MatchedParam<'a> {
         }
     }
 }
+
+//------------ verification hooks (C12) ---------------------------------------
+// Add-only, compiled only with the cargo feature `verif-hooks`: lets an
+// external harness drive the private request handler in-process.
+
+#[cfg(feature = "verif-hooks")]
+impl Server {
+    /// `Server::handle_request`, unchanged.
+    pub async fn verif_handle_request(
+        req: Request<Body>,
+        metrics: &metrics::Collection,
+        resources: &Resources,
+    ) -> Response<Body> {
+        match Self::handle_request(req, metrics, resources).await {
+            Ok(res) => res,
+            Err(never) => match never {},
+        }
+    }
+}
+
+#[cfg(feature = "verif-hooks")]
+impl Resources {
+    /// What `Server::run` does with the configured `compress_responses`.
+    pub fn verif_set_compress_responses(&mut self, on: bool) {
+        self.compress_responses = on;
+    }
+
+    /// Number of entries currently held (dead ones are pruned on register).
+    pub fn verif_len(&self) -> usize {
+        self.sources.load().len()
+    }
+}
